@@ -156,7 +156,7 @@ func Plan(tier string) *harness.Plan {
 	bound, capExec := 2, 1000
 	budget := 150 * time.Second
 	if thorough {
-		bound, capExec, budget = 2, 200000, 40*time.Minute
+		bound, capExec, budget = 2, 200000, 25*time.Minute
 	}
 	return &harness.Plan{
 		Units: len(units), Chunk: 2,
